@@ -225,32 +225,49 @@ func loadDeb2(archive map[string]*ArEntry) (*Deb, error) {
 // Load a Debian 2.x series .deb control file and write it out to
 // the deb.Deb.Control member.
 func loadDeb2Control(archive map[string]*ArEntry, deb *Deb) error {
-	for _, member := range archive {
-		if strings.HasPrefix(member.Name, "control.") {
-			archive, closer, err := member.Tarfile()
-			if err != nil {
-				return err
-			}
-			deb.ControlExt = member.Name[8:len(member.Name)]
-			for {
-				member, err := archive.Next()
-				if err != nil {
-					closer.Close()
-					return err
-				}
-				if path.Clean(member.Name) == "control" {
-					err1 := control.Unmarshal(&deb.Control, archive)
-					err2 := closer.Close()
-					if err1 != nil {
-						return err1
-					}
-					return err2
-				}
-			}
+	member, err := findDeb2Member(archive, "control")
+	if err != nil {
+		return err
+	}
+	tarball, closer, err := member.Tarfile()
+	if err != nil {
+		return err
+	}
+	deb.ControlExt = member.Name[8:len(member.Name)]
+	for {
+		entry, err := tarball.Next()
+		if err != nil {
 			closer.Close()
+			return err
+		}
+		if path.Clean(entry.Name) == "control" {
+			err1 := control.Unmarshal(&deb.Control, tarball)
+			err2 := closer.Close()
+			if err1 != nil {
+				return err1
+			}
+			return err2
 		}
 	}
-	return fmt.Errorf("Missing or out of order .deb member 'control'")
+}
+
+// Find the one member called `<kind>.*`. Which of several would be used
+// depended on the iteration order of the map - and CheckDebsig makes its
+// own choice - so more than one is an error.
+func findDeb2Member(archive map[string]*ArEntry, kind string) (*ArEntry, error) {
+	var found *ArEntry
+	for _, member := range archive {
+		if strings.HasPrefix(member.Name, kind+".") {
+			if found != nil {
+				return nil, fmt.Errorf("More than one .deb member '%s'", kind)
+			}
+			found = member
+		}
+	}
+	if found == nil {
+		return nil, fmt.Errorf("Missing or out of order .deb member '%s'", kind)
+	}
+	return found, nil
 }
 
 // }}}
@@ -260,19 +277,18 @@ func loadDeb2Control(archive map[string]*ArEntry, deb *Deb) error {
 // Load a Debian 2.x series .deb data file and write it out to
 // the deb.Deb.Data member.
 func loadDeb2Data(archive map[string]*ArEntry, deb *Deb) error {
-	for _, member := range archive {
-		if strings.HasPrefix(member.Name, "data.") {
-			archive, closer, err := member.Tarfile()
-			if err != nil {
-				return err
-			}
-			deb.DataExt = member.Name[5:len(member.Name)]
-			deb.Data = archive
-			deb.Closer = closer
-			return nil
-		}
+	member, err := findDeb2Member(archive, "data")
+	if err != nil {
+		return err
 	}
-	return fmt.Errorf("Missing or out of order .deb member 'data'")
+	tarball, closer, err := member.Tarfile()
+	if err != nil {
+		return err
+	}
+	deb.DataExt = member.Name[5:len(member.Name)]
+	deb.Data = tarball
+	deb.Closer = closer
+	return nil
 }
 
 // }}}
